@@ -400,6 +400,12 @@ def _make_sync(holder):
             holder.harness = e
             raise
         holder.digests.append(d)
+        pre = holder.case['resp'].get('prerender')
+        if pre is not None:
+            # a body prepared and rendered early (as a digest / ETag hook would), then withdrawn again
+            resp.media = pre[0]
+            resp.render_body()
+            resp.media = None
         _respond(holder, resp)
 
     def responder(self, req, resp, **kw):
@@ -420,6 +426,11 @@ def _make_async(holder):
             holder.harness = e
             raise
         holder.digests.append(d)
+        pre = holder.case['resp'].get('prerender')
+        if pre is not None:
+            resp.media = pre[0]
+            await resp.render_body()
+            resp.media = None
         _respond(holder, resp)
 
     async def responder(self, req, resp, **kw):
@@ -1082,6 +1093,7 @@ responders = st.fixed_dictionaries({
     'props': st.lists(_props, max_size=2),
     'body': _resp_body,
     'raise': _raises,
+    'prerender': st.one_of(st.none(), st.none(), st.none(), st.sampled_from([[{'early': 1}], [[1, 2]], ['early']])),
 })
 _plain_responder = st.just({'status': None, 'set': [], 'append': [], 'ctype': None, 'cookies': [], 'unset': [], 'props': [],
                             'body': ['none', None], 'raise': None})
